@@ -160,7 +160,7 @@ class Check(CheckBase):
             per = 4096 // width
             lens = sorted({per - 1, per, per + 1, 2 * per, 2 * per + 1, per // 2, per // 2 + 1})
             with Env(4096, "little") as env:
-                one = [(ch, o, f, t) for ch in (1, 2) for o in ("L", "B") for f in lens for t in (0, 1)]
+                one = [(ch, o, f, t) for ch in (1, 2, 3) for o in ("L", "B") for f in lens for t in (0, 1)]
                 gens = [(c,) for c in one] + [(a, b) for a in one[::3] for b in one[::5]]
                 for cfgs in gens:
                     ok, klass, detail = run_case(env, width, cfgs)
